@@ -87,7 +87,8 @@ def judge(call: dict, res: dict, rec, feats, case_base) -> None:
 def mk_doc(ctx: Ctx, trig: set[str]) -> specgen.Doc:
     return specgen.generate(ctx.rng, allow=trig, prof={"ops": (2, 4) if ctx.quick else (1, 2), "p_param": 0.3, "p_body": 0.2, "schemas": (2, 4),
                                                        "p_errors": 0.7, "p_3xx": 0.3, "p_stream": 0.1, "p_union": 0.0, "p_self_ref": 0.0,
-                                                       "p_default_content": 0.5 if "default_with_content" in trig else 0.0})
+                                                       "p_default_content": 0.5 if "default_with_content" in trig else 0.0,
+                                                       "p_default_content_nobody": 0.6})
 
 
 def run_doc(ctx: Ctx, it: dict) -> None:
